@@ -39,6 +39,8 @@ type c03gen struct {
 	nfuncs int
 	budget int
 	fpfx   string // function name prefix (C28 runs several programs at once)
+	bulk   bool   // at most one bulk pipeline per program
+	bulkOK bool
 }
 
 var c03Words = []string{"alpha", "beta", "a1b2", "xyz", "hello", "w0rld", "11", "212"}
@@ -130,7 +132,7 @@ func (g *c03gen) cond() string {
 // stmt generates one statement; pure: no assignments (used inside functions that may run as pipeline stages)
 func (g *c03gen) stmt(depth int, inFunc bool) pnode {
 	g.budget--
-	max := 14
+	max := 15
 	if depth >= 3 || g.budget <= 0 {
 		max = 5
 	}
@@ -217,6 +219,27 @@ func (g *c03gen) stmt(depth int, inFunc bool) pnode {
 			n.Stages = append(n.Stages, "cast str")
 		}
 		return n
+	case 13: // bulk data: more bytes in flight than one Read asks for (readers ask for 4-10 KiB at a time)
+		if !g.bulkOK || g.bulk || depth > 0 { // thorough tier only: a bulk pipeline costs 20-40k decisions per schedule
+			return g.pipe(inFunc)
+		}
+		g.bulk = true
+		if g.r.Intn(4) != 0 {
+			// few, large writes: each iteration writes 6-13 KiB in one Write, so the reader falls behind while
+			// the writer is still at work (partial reads with more data arriving). Cheap in decisions.
+			g.loopN++
+			var lit strings.Builder
+			for i, k := 0, 1500+g.r.Intn(1500); i < k; i++ {
+				fmt.Fprintf(&lit, "%d\\n", 100+i)
+			}
+			n := pnode{T: "pipe", S: fmt.Sprintf("a [1..%d]", 2+g.r.Intn(4))}
+			n.Stages = []string{fmt.Sprintf("foreach lv%d { out \"%s\" }", g.loopN, lit.String()),
+				[]string{"cast str", "regexp s/7/seven/", "match 9", "msort"}[g.r.Intn(4)], []string{"count", "regexp m/99/", "msort -> count"}[g.r.Intn(3)]}
+			return n
+		}
+		n := pnode{T: "pipe", S: fmt.Sprintf("a [1..%d]", 800+g.r.Intn(1200))}
+		n.Stages = []string{[]string{"cast str", "regexp s/7/seven/", "match 9", "msort"}[g.r.Intn(4)], []string{"count", "[..3]", "regexp m/99/", "mtac -> [..2]"}[g.r.Intn(4)]}
+		return n
 	default:
 		return g.pipe(inFunc)
 	}
@@ -244,7 +267,7 @@ func (g *c03gen) block(depth int, inFunc bool, n int) []pnode {
 }
 
 func genC03(r *Rand, tier string) Case {
-	g := &c03gen{r: r, budget: 22}
+	g := &c03gen{r: r, budget: 22, bulkOK: tier == "thorough"}
 	var w c03W
 	nf := r.Intn(3)
 	for i := 0; i < nf; i++ {
